@@ -114,6 +114,35 @@ def judge(rep, wd, trace_path, invariants, label, chunk=4000):
     return events, verdicts, hazards
 
 
+def conformance(rep, wd, trace_path, label, chunk=2500):
+    """Binding of Core.tla: its own Verify/SyncResult operators, instantiated on the pre-state observed before each real
+    sync, must predict the level-0 file the real code wrote (Trace_CoreSync.tla). Divergences are reported, not verdicts."""
+    lines = [x for x in open(trace_path)]
+    full = [x for x in lines if '"has":true' in x.replace(" ", "")]
+    if not full:
+        return
+    tids = set(json.loads(x)["t"] for x in full)
+    sel = [x for x in lines if json.loads(x)["t"] in tids]
+    branches, div, n = {}, [], 0
+    for k in range(0, len(sel), chunk):
+        # cut at trace boundaries
+        part = sel[k:k + chunk]
+        with open(os.path.join(wd, "core_trace.ndjson"), "w") as fh:
+            fh.writelines(part)
+        r = vlib.run_tlc("Trace_CoreSync", "Trace_CoreSync.cfg", wd, workers=1, timeout=1800)
+        vlib.tlc_expect_ok(r, "Trace_CoreSync")
+        rep.add_tlc("Trace_CoreSync(%s)" % label, r, "Core.tla's Verify/SyncResult vs the files written by the real code")
+        for m in vlib.re.finditer(r'<<"BRANCH", "([a-z/-]+)", (\d+), (\d+), (\d+)>>', r.out):
+            branches[m.group(1)] = branches.get(m.group(1), 0) + 1
+            n += 1
+        for m in vlib.re.finditer(r'<<"DIVERGE", (\d+), (\d+), (\d+)>>', r.out):
+            e = json.loads(part[int(m.group(1)) - 1])
+            div.append({"t": e["t"], "i": e["i"], "op": e["op"]})
+    rep.cov["core_conformance"] = {"syncs_predicted": n, "branches": branches, "divergences": len(div), "first": div[:3]}
+    for d in div[:3]:
+        rep.notes.append("DIVERGENCE module=Core (Verify/SyncResult) trace=%d step=%d op=%s" % (d["t"], d["i"], d["op"]))
+
+
 def classify(rep, prop, cases_by_id, events, verdicts, hazards, my_invariants, label):
     """Known finding <=> the trace shows the signature (hazard) of a listed finding and only invariants listed for it."""
     known = [f for f in vlib.known_findings(prop) if f.get("status") == "known"]
